@@ -14,7 +14,7 @@ from .overlay import MachineryError
 
 A = None
 REF = None            # template TLS messages of a reference handshake (fallback when a connection has not produced one yet)
-BASE_CFG = {"idle": 5.0}
+BASE_CFG = {"idle": 1.5}
 DEAD = ("closepending", "hsclosepending", "hsclosing", "closing", "draining")
 INTERNAL_READS = ["_packet_number (hostile peer continues the genuine packet-number sequence)", "_peer_cid / host_cid / _host_cids (CIDs and reset tokens the peer knows)",
                   "_spaces[epoch].ack_queue (was the hostile packet accepted)", "_crypto_streams[epoch].receiver.starting_offset() (how much CRYPTO data was consumed)",
@@ -244,11 +244,13 @@ class Ctx:
                 return
             self.hostile_dgrams += 1
             rec = self.sim.ev("inject", src=self.src, ptype=ptype, tag=tag, plen=len(payload), pn=min(pnn, 1 << 30), accepted=False)
-            self.sim.inject(self.tgt, raw, self.addr(), tag)
             E = A["tls"].Epoch
             e = {"initial": E.INITIAL, "handshake": E.HANDSHAKE, "0rtt": E.ONE_RTT, "1rtt": E.ONE_RTT}[ptype]
             sp = getattr(self.conn(self.tgt), "_spaces", {}).get(e)
-            rec["accepted"] = bool(sp is not None and pnn in sp.ack_queue)
+            before = bool(sp is not None and pnn in sp.ack_queue)
+            self.sim.inject(self.tgt, raw, self.addr(), tag)
+            sp = getattr(self.conn(self.tgt), "_spaces", {}).get(e)
+            rec["accepted"] = bool(sp is not None and pnn in sp.ack_queue) and not before
             self.accepted = self.accepted or rec["accepted"]
 
     def send_crypto(self, ep, off, data, tag, chunk=1100):
@@ -336,6 +338,8 @@ def drive(sim, role, phase, rnd, cur_ep):
         else:
             s.run_fair(until=lambda: all(ep in s.eps and s.eps[ep]._handshake_confirmed for ep in "cs") and not s.net)
     conn = s.eps[ctx.tgt]
+    if not (role == "server" and live == "first"):
+        s._after(ctx.tgt)          # settle: events queued by the last transmit are delivered to the application before the hostile input
     if phase in ("closepending", "hsclosepending"):
         _, r = s._guard(ctx.tgt, "close", lambda: conn.close(error_code=0, reason_phrase="bye"))
         s.ev("api", ep=ctx.tgt, call="close", code=0, raised=r or "")
@@ -532,7 +536,7 @@ def run_job(job):
         init = {"ev": "init", "role": role, "phase": phase, "lvl": cls["lvl"], "name": cls["name"], "ep": cls["ep"], "sig": job["sig"],
                 "qs": pre["qs"], "cp": pre["cp"], "tls": pre["tls"], "hc": pre["hc"], "hcf": pre["hcf"]}
         lines = project(s, start, init, post)
-        summary = {"outcome": "Close" if closed else ("Progress" if (ctx.accepted or moved or events or (sent and phase not in ("closepending", "hsclosepending"))) else "Ignored"),
+        summary = {"outcome": "Close" if closed else ("Progress" if (ctx.accepted or moved or events) else "Ignored"),
                    "code": code, "hostile": ctx.hostile_dgrams, "raised": [list(r) for r in s.raised[raised0:][:3]],
                    "mid": mid, "n": len(lines)}
         return {"lines": lines, "summary": summary}
@@ -549,7 +553,9 @@ def run_session(job):
     from .netsim import script
     while hostile < job["quota"] and sessions < 400:
         sessions += 1
-        s = Sim5(A, dict(BASE_CFG, idle=rnd.choice([5.0, 60.0]), ticket_store=dict(REF["store"])), seed=rnd.randrange(1 << 24))
+        dgram = rnd.random() < 0.7
+        s = Sim5(A, dict(BASE_CFG, idle=rnd.choice([5.0, 60.0]), ticket_store=dict(REF["store"]), datagram=1200 if dgram else None),
+                 seed=rnd.randrange(1 << 24))
         try:
             hs_adv = rnd.random() < 0.3
             s.connect()
@@ -561,7 +567,12 @@ def run_session(job):
             ex = script.Exec(s)
             ctxs = {"client": Ctx(s, "client", "session", rnd, "a"), "server": Ctx(s, "server", "session", rnd, "a")}
             ctxs["client"]._odcid = ctxs["server"]._odcid = bytes(s.obs.initial_dcid or b"")
-            fatal_p = rnd.choice([0.0, 0.0, 0.01, 0.05])
+            fatal_p = rnd.choice([0.0, 0.0, 0.0, 0.005, 0.02])
+            fst = {"client": {"datagram": dgram, "opened": not hs_adv}, "server": {"datagram": dgram, "opened": not hs_adv}}
+            if not hs_adv:
+                ex.step(["write", "c", 0, 20, False])
+                ex.step(["write", "s", 1, 20, False])
+                s.run_fair(max_steps=20)
             for _ in range(job["steps"]):
                 if all(s.terminated[ep] for ep in s.eps):
                     break
@@ -572,14 +583,19 @@ def run_session(job):
                 x = rnd.random()
                 if x < 0.45:
                     ep = "a" if not hs_adv or rnd.random() < 0.6 else rnd.choice("iha")
-                    c.send_pkt(ep, K.random_frames(rnd, role, rnd.randrange(1, 6), fatal_p=fatal_p), "v:random-frames")
+                    if ep == "a":
+                        fr = K.random_frames(rnd, role, rnd.randrange(1, 6), fatal_p=fatal_p, state=fst[role])
+                    else:
+                        fr = b"".join(rnd.choice([b"\x01", bytes(3), H.f_ack(rnd.choice([0, 1, 2]), 0, 0), H.f_crypto(rnd.choice([0, 5000]), b"")])
+                                      for _ in range(rnd.randrange(1, 4)))
+                    c.send_pkt(ep, fr, "v:random-frames")
                 elif x < 0.52:
                     nm = rnd.choice(["rand-small", "rand-1200", "short-unknown-cid", "short-unknown-keys", "stateless-reset-shaped", "long-unknown-version",
                                      "genuine-bitflip", "genuine-trunc", "genuine-concat", "genuine-replay", "vn-unsupported", "handshake-unknown-keys"])
                     vid = rnd.choice(K.dgram_variants(nm, False))
                     for raw in K.dgram_build(c, nm, vid):
                         c.inject_raw(raw, "v:" + nm)
-                elif x < 0.57:
+                elif x < 0.535:
                     name = rnd.choice(["hdr:pn-far-ahead", "hdr:pn-duplicate", "hdr:key-phase-flip", "hdr:pnlen-each", "ack:never-sent", "ncid:out-of-order",
                                        "rcid:unknown-current-retired", "stream:final-size", "streamctl:kinds", "datagram:sizes", "path_challenge:x33"])
                     vs = K.frame_variants(name, "", "", "a", role)
